@@ -71,6 +71,25 @@ func vScalarOf(t *testing.T, v *big.Int) *Scalar {
 	return s
 }
 
+// vScalarVariants builds the same canonical value through the different constructors of the API (plus the raw-limb
+// construction): whatever a Scalar object remembers about how it was made must not matter.
+func vScalarVariants(t *testing.T, v *big.Int) []*Scalar {
+	out := []*Scalar{vScalarOf(t, v)}
+	if d := NewScalar(); d.Decode(vPad32(v)) == nil {
+		out = append(out, d)
+	}
+	if v.IsUint64() {
+		out = append(out, NewScalar().SetUInt64(v.Uint64()))
+	}
+	one := vScalarOf(t, big.NewInt(1))
+	out = append(out, vScalarOf(t, new(big.Int).Mod(new(big.Int).Sub(v, big.NewInt(1)), vN)).Add(one))
+	out = append(out, NewScalar().Set(vScalarOf(t, v)), vScalarOf(t, v).Copy())
+	if v.IsUint64() {
+		out = append(out, NewScalar().SetUInt64(v.Uint64()).Add(one).Subtract(one))
+	}
+	return out
+}
+
 func vScalarVal(s *Scalar) *big.Int { return new(big.Int).SetBytes(s.Encode()) }
 
 func TestVerifReplay(t *testing.T) {
@@ -105,15 +124,16 @@ func vRunCase(t *testing.T, c vCase) (msg string) {
 	switch c.Kind {
 	case "bits":
 		v := vBig(c.A)
-		s := vScalarOf(t, v)
-		bits := s.Bits()
-		enc := new(big.Int).SetBytes(s.Encode())
-		if enc.Cmp(v) != 0 {
-			return "Encode does not return the decoded value"
-		}
-		for i := 0; i < 256; i++ {
-			if uint(bits[i]) != v.Bit(i) {
-				return "Bits()[" + itoa(i) + "] = " + itoa(int(bits[i])) + ", bit of canonical value = " + itoa(int(v.Bit(i)))
+		for vi, s := range vScalarVariants(t, v) {
+			bits := s.Bits()
+			enc := new(big.Int).SetBytes(s.Encode())
+			if enc.Cmp(v) != 0 {
+				return "Encode does not return the value (constructor variant " + itoa(vi) + ")"
+			}
+			for i := 0; i < 256; i++ {
+				if uint(bits[i]) != v.Bit(i) {
+					return "Bits()[" + itoa(i) + "] = " + itoa(int(bits[i])) + ", bit of canonical value = " + itoa(int(v.Bit(i))) + " (constructor variant " + itoa(vi) + ")"
+				}
 			}
 		}
 	case "lessorequal":
